@@ -13,22 +13,37 @@ from translate import c02_tables, c03_basetok, c03_kvparse
 
 MANIFEST = dict(
     technique='Rocq proof (generic chunked-reader = flat-reader simulation for every reader program; totality, progress, '
-              'EOF-for-ever and a linear read bound for the tokenizer model by induction on fuel) + exhaustive small-scope '
-              'differential correspondence (in-kernel enumeration, 63-bit checksums) + chunking oracle on the implementation',
+              'EOF-for-ever and a linear read bound for the tokenizer model by induction on fuel; push-back-stack refinement and '
+              'bisimulation for the BaseTokenizer layer; exception-level model of Keyvalues.parse configured by a census of the '
+              'parse path) + exhaustive small-scope differential correspondences (in-kernel enumeration, 63-bit checksums) + '
+              'chunking / delivery / foreign-exception oracles on the implementation',
     text='Theorems in Props/C03.v: no reader program can distinguish a chunked source (the _cur_chunk/_char_index/iterator state '
          'of the real class, _next_char and the one-character push-back modelled literally) from the flat text, so token '
          'traces (kind, value, line_num, _last_was_cr, error site and line) are identical for every chunking, every option '
          'vector and any number of calls; with fuel above the text length no call runs out of fuel, a call returns EOF only '
          'with the input exhausted and then for ever, each call does at most 2*remaining+1 reads and n calls at most '
          '2*|text|+n; the only failure values are the 14 error sites, all raised through self.error (TokenSyntaxError). '
-         'The model is compared with the real Tokenizer on every string over a 23-symbol syntax alphabet up to length 3 under '
-         'all 128 option vectors (token, value, line_num, _last_was_cr, error site/argument/line), on random longer texts, and '
-         'the reader state (_char_index, len(_cur_chunk)) after every call on random chunkings; the implementation alone is '
-         'checked for chunked == unchunked on all cut sets, foreign exceptions, EOF for ever and the read bound.',
-    note='Trusted: Coq kernel + vm_compute (incl. primitive Uint63 for checksums), translate/c02_tables.py, the hand model '
-         'Text/Tokenizer.v (tied by the exhaustive differential run), CPython str/casefold. Keyvalues.parse (KeyValError '
-         'clause) is searched on the implementation only, not modelled (C01 owns the parser model). The push-back stack of '
-         'BaseTokenizer, file names and message texts are outside the model. Cython twin not covered.',
+         'BaseTokenizer layer (generic over the source, LIFO condition read from the source): every sequence of __call__/peek/'
+         'push_back equals the same sequence on the logical stream "pushed-back tokens, last first, then the _get_token stream"; '
+         'calls deliver the underlying stream unchanged; re-delivery does not touch line_num; through call/peek/push_back/expect the '
+         'flat text and every chunking give the same results and final state; IterTokenizer delivers its items then EOF for ever. '
+         'Keyvalues.parse (exception level, all four parse options, any flag mapping): if every indexing site is guarded as the '
+         'census of the source says (five named obligations + "no unguarded indexing/conversion/unknown call on the parse path" + '
+         '"every error message formats with the arguments passed"), then for every token stream and every text nothing but '
+         'KeyValError leaves the parser; each foreign exit needs its own guard to be missing. '
+         'Correspondences on every run: tokenizer model vs real Tokenizer on every string over a 23-symbol alphabet (quick: length 2 x '
+         'all 128 option vectors + length 3 x 32 vectors; thorough: length 3 x 128 + length 4 x 16), random texts, reader state after '
+         'every call; BaseTokenizer model vs the real class on every sequence of up to 4 (5) of 12 public operations on 5 sources '
+         '(result, _pushback list, line_num after each); parser model vs Keyvalues.parse outcome class on every token list over 9 '
+         'tokens up to length 4 (5) x 16 option vectors through IterTokenizer, every text over 13 symbols up to length 3 (4), '
+         'structured random token streams and texts. The implementation alone is checked for chunked == unchunked on all cut sets, '
+         'foreign exceptions, EOF for ever, the read bound, and delivery = plain stream under peeks and push-backs.',
+    note='Trusted: Coq kernel + vm_compute (incl. primitive Uint63 for checksums), the translators (c02_tables, c03_kvparse, '
+         'c03_basetok), the hand models Text/Tokenizer.v, Text/BaseTok.v (helper loops) and Text/KvErrModel.v (tied by the exhaustive '
+         'differential runs), CPython str/casefold. The parser model abstracts the tree to "child list empty or not" (exact for the '
+         'outcome class; the tree itself is C01\'s subject) and consumes the logical token list (push_back = not consumed). '
+         'FLAGS_DEFAULT entries that depend on the platform are read from the running interpreter. File names and message texts '
+         'are outside the models (errors are identified by site / message prefix). Cython twin not covered.',
 )
 
 SYN_ALPHA = ['"', '\\', '/', '*', '{', '}', '[', ']', '(', ')', '#', ':', '+', '=', ',', '\r', '\n', ' ', 'a', 'n', '\ufeff', "'", ';']
@@ -981,6 +996,84 @@ def report_tok(ck: Ck, kind: str, s: str, bits: int, cs: list[str] | None) -> No
                  {'kind': kind, 'text': [ord(c) for c in s], 'bits': bits, 'chunks': [[ord(c) for c in x] for x in (witness or cs or [])]})
 
 
+
+def _plain_stream(s: str, bits: int) -> list:
+    """Tokens of a fresh tokenizer by plain calls, up to EOF; a final ('ERR', message, line) if it raises."""
+    from srctools.tokenizer import Token, Tokenizer, TokenSyntaxError
+    tk = Tokenizer(s, None, **U.opts_of_bits(bits))
+    out: list = []
+    try:
+        for _ in range(len(s) + 2):
+            t = tk()
+            out.append(t)
+            if t[0] is Token.EOF:
+                break
+    except TokenSyntaxError as e:
+        out.append(('ERR', e.mess, e.line_num))
+    except Exception as e:  # noqa: BLE001
+        out.append(('FOREIGN', type(e).__name__, 0))
+    return out
+
+
+def basetok_delivery(s: str, bits: int, plan: list[str], chunks: list[str] | None = None) -> str | None:
+    """Delivery = underlying stream on the real class: following `plan` (call / peek+call / peek twice / push two and pop
+    them), the tokens returned by calls must be the plain stream; returns a description of the first deviation."""
+    from srctools.tokenizer import Token, Tokenizer, TokenSyntaxError
+    want = _plain_stream(s, bits)
+    tk = Tokenizer(s if chunks is None else iter(chunks), None, **U.opts_of_bits(bits))
+    got: list = []
+    try:
+        for step in plan:
+            if got and got[-1][0] is Token.EOF:
+                break
+            if step == 'call':
+                got.append(tk())
+            elif step == 'peek':
+                p = tk.peek()
+                c = tk()
+                if p != c:
+                    return f'peek-then-call: peek gave {p!r}, the next call {c!r}'
+                got.append(c)
+            elif step == 'peek2':
+                p1, p2 = tk.peek(), tk.peek()
+                if p1 != p2:
+                    return f'peek-twice: {p1!r} then {p2!r}'
+            else:
+                tk.push_back(Token.STRING, 'first')
+                tk.push_back(Token.BRACE_OPEN)
+                a, b = tk(), tk()
+                if (a, b) != ((Token.BRACE_OPEN, '{'), (Token.STRING, 'first')):
+                    return f'push-back-order: pushed STRING "first" then BRACE_OPEN, calls gave {a!r} then {b!r}'
+    except TokenSyntaxError as e:
+        got.append(('ERR', e.mess, e.line_num))
+    except Exception as e:  # noqa: BLE001
+        got.append(('FOREIGN', type(e).__name__, 0))
+    if got != want[:len(got)]:
+        k = next(i for i, (a, b) in enumerate(zip(got + [None], want + [None])) if a != b)
+        return f'delivery: item {k} is {got[k] if k < len(got) else None!r}, the plain stream has {want[k] if k < len(want) else None!r}'
+    return None
+
+
+def basetok_search(ck: Ck, big: bool) -> None:
+    rng = ck.rng
+    for _ in range(4000 if big else 600):
+        s = (gen_kv_text(rng) if rng.random() < 0.5 else gen_text(rng))[:rng.choice([4, 8, 16, 40])]
+        bits = rng.choice([6, 7, 7, rng.choice(ALL_BITS)])
+        plan = [rng.choice(['call', 'call', 'peek', 'peek', 'peek2', 'pushpop']) for _ in range(len(s) + 3)]
+        chunks = random_chunks(rng, s) if rng.random() < 0.5 else None
+        ck.count('oracle_basetok_delivery')
+        r = basetok_delivery(s, bits, plan, chunks)
+        if r is not None and not capped('basetok:' + r.split(':')[0]):
+            kind = r.split(':')[0]
+            small = shrink(s, lambda t: (basetok_delivery(t, bits, plan, None) or '').split(':')[0] == kind)
+            r2 = basetok_delivery(small, bits, plan, None) or r
+            ck.violation('basetok-' + kind + ':' + '+'.join(cname(c) for c in small[:8]),
+                         f'BaseTokenizer layer over Tokenizer({small!r}, options {[n for i, n in enumerate(U.OPTION_NAMES) if bits >> i & 1]}), '
+                         f'plan {plan[:len(small) + 3]}: {r2}',
+                         {'kind': 'basetok', 'text': [ord(c) for c in small], 'bits': bits, 'plan': plan[:len(small) + 3]})
+        ck.seen(('bt', bits, s, tuple(plan[:6])))
+
+
 def search(ck: Ck, escalate: bool) -> None:
     big = ck.thorough or escalate or bool(ck.tie_broken)
     # (a) exhaustive: all strings up to length n x all 128 option vectors x cut sets (+ empty chunks, + line split).
@@ -1052,6 +1145,7 @@ def search(ck: Ck, escalate: bool) -> None:
                              f'Keyvalues.parse({small!r}, {kw}) differs between one string and per-character chunks',
                              {'kind': 'kvparse-chunks', 'text': [ord(c) for c in small], 'kw': kw})
                 break
+    basetok_search(ck, big)
     ck.sample({'oracle_example': {'text': 'a\r\n/*x*/b', 'chunks': ['a\r', '', '\n/*x*', '/b'], 'check': 'same trace as the single string'}})
 
 
@@ -1140,6 +1234,12 @@ def replay(data: dict) -> int:
             print(f' model (parser model as configured by the last ./check run): {kv_name(int(mv[0].split("%")[0]))}')
         print('VIOLATED' if c >= 300 else 'property holds on this input')
         return 1 if c >= 300 else 0
+    if r.get('kind') == 'basetok':
+        s = ''.join(map(chr, r['text']))
+        res = basetok_delivery(s, r['bits'], r['plan'])
+        print(f'text {s!r} options {U.opts_of_bits(r["bits"])}\n plan {r["plan"]}\n plain stream: {_plain_stream(s, r["bits"])}\n -> {res}')
+        print('VIOLATED' if res else 'property holds on this input')
+        return 1 if res else 0
     if 'text' not in r:
         print(json.dumps(r, indent=1)[:3000])
         print('no concrete input recorded (broken proof obligation / correspondence)')
